@@ -64,7 +64,7 @@ def ctx_leaf_like(ctx, ref):
     key = (id(ctx), "Y")
     if key not in _LEAF_CACHE:
         _LEAF_CACHE.clear()
-        _LEAF_CACHE[key] = ctx.leaf("Yt", (ref.shape[-2], 1))
+        _LEAF_CACHE[key] = ctx.leaf("argYt", (ref.shape[-2], 1))
     return _LEAF_CACHE[key]
 
 
@@ -101,7 +101,7 @@ def harness(ctx):
 
 def _run(ctx, b, n, batch, g):
     op, ref = b(ctx, n, batch)
-    X = ctx.leaf("X", (ref.shape[-1], 2))
+    X = ctx.leaf("argX", (ref.shape[-1], 2))
     if g == "clone":
         c = op.clone()
         _same_structure(ctx, "clone", op, c)
